@@ -90,6 +90,19 @@ def run(ctx, res):
         else:
             res.bad("WORKER-LOOP", "json_session::eval_worker # loop-exit",
                     "eval_worker's request loop has an exit that is not the channel-closed case", w.loc())
+    # ---- FRAMING-EXACT: the reader must consume exactly Content-Length bytes for a request (read_exact); a short
+    # read turns one request into a truncated request plus a header-less line, i.e. two error responses.
+    js = P.require_fn("json_session::json_session")
+    exact = [bi for bi, t in js.calls() if (M.callee_name(t) or "").endswith("Read>::read_exact") or (M.callee_name(t) or "").endswith("Read::read_exact")]
+    plain = [bi for bi, t in js.calls() if (M.callee_name(t) or "").endswith(("Read::read", "Read>::read", "Read::read_to_end", "Read>::read_to_end", "Read::read_buf", "Read>::read_buf"))]
+    utf = [(bi, t) for bi, t in js.calls() if (M.callee_name(t) or "").endswith("String::from_utf8")]
+    okf = bool(exact) and not plain and bool(utf) and all(any(js.dominates(e, bi) for e in exact) for bi, _ in utf)
+    if okf:
+        res.ok("FRAMING-EXACT", "json_session: the payload buffer is filled by read_exact before it is decoded and dispatched")
+    else:
+        res.bad("FRAMING-EXACT", "json_session::json_session # payload-read",
+                "the request payload is not read with read_exact(Content-Length) before decoding (read_exact=%d, other reads=%d): a "
+                "payload longer than one pipe read is split into a truncated request and a stray line" % (len(exact), len(plain)), js.loc())
     # the session's :resume relies on every non-step exit of the interpreter loop restoring the popped
     # expression (shared with C08): a lost entry makes a later pop run the value stack dry and kills the worker
     from . import c08 as _c08
